@@ -308,6 +308,16 @@ func stakeInvariants(mc *modelCheck, mr *modelRun, h sim.History, res *engine.Re
 			}
 		}
 	}
+	// "recorded in exactly one place (bonded or unbonding)": a stake the model expects in the unbonding list and the
+	// implementation does not hold there (or vice versa) is C11's concern as much as C12's
+	for _, f := range mr.Findings {
+		if f.Prop == "C12" && (f.Kind == "unbonding-stake-missing" || f.Kind == "unbonding-stake-unexpected") {
+			g := f
+			g.Prop = "C11"
+			g.Kind = "stake-not-in-exactly-one-place"
+			out = append(out, g)
+		}
+	}
 	// total_power query at the last height
 	if n := len(mr.Res.States); n > 0 && !mr.Res.Chain.Dead {
 		st := mr.Res.States[n-1]
